@@ -615,8 +615,15 @@ func (u *Unit) loopEnv(st *State, ord int) *SpecEnv {
 }
 
 func (u *Unit) execLoop(st *State, init ast.Stmt, cond ast.Expr, post ast.Stmt, body *ast.BlockStmt, rng *ast.RangeStmt) []*State {
-	u.loopOrd++
-	ord := u.loopOrd
+	var node ast.Node = rng
+	if rng == nil {
+		node = body
+	}
+	ord := u.loopOrdOf[node]
+	if ord == 0 {
+		u.loopOrd++
+		ord = 1000 + u.loopOrd
+	}
 	lc := u.ct.Loops[ord]
 	info := u.prog.Info
 	if init != nil {
